@@ -17,7 +17,8 @@ MANIFEST = {
             'keys for receiving/mining/change, restore, save, load, blocks paying wallet keys, balance; and for EVERY save '
             'in the script a process crash is injected at EVERY durable boundary of that save (truncating open of the side '
             'file, each raw write including torn ones, close, rename), each followed by inspection of wallet.json, a reload '
-            'through the node\'s own loader and a continuation. Exhaustive in crash points per save, sampled over scripts.',
+            'through the node\'s own loader and a continuation. Exhaustive in crash points per save, sampled over scripts.'
+            ' The receive script (skepticoin-receive main()) is run as a process of its own against the simulated file system with a crash at every boundary of its save, followed by the next caller: an address shown before must not be shown again. Wallet keys also spend (several outputs of one key in one transaction, change back to an input key, one key paid twice) before balances are compared.',
     'note': 'Process-crash model only (what the statement says): completed write(2)s, truncations and renames survive, '
             'Python-level buffers do not; no power-loss reordering. Trusted: SimFS (seams/fs.py), own JSON parsing of the file.',
 }
